@@ -1,0 +1,10 @@
+//go:build !verif
+
+package pool
+
+// No-op twins of the verification hooks (see verif_c20.go, build tag "verif").
+// With the tag off the pool behaves exactly as before.
+
+func getHook(b []byte) []byte { return b }
+
+func releaseHook(b []byte) bool { return false }
